@@ -123,8 +123,13 @@ pub fn step_check(s: &mut In) -> Result<(), Violation> {
 }
 
 fn c04_prefix(s: &In) -> Result<(), Violation> {
-    let e = expected_responses(s);
+    let mut e = expected_responses(s);
     let a = actual_responses(s);
+    // a response that cannot be encoded (SUBACK of a 40-filter SUBSCRIBE against a small outbound limit) ends the
+    // connection; until the Stop is through, responses parked behind it may still be written: it is skipped in the
+    // order check when absent, and demanded like any other on a connection that stays healthy (final check)
+    let unencodable: Vec<u16> = s.sent.iter().filter(|x| matches!(x.t, T::SubMany(_))).filter_map(|x| if let Some(Pkt::Subscribe { pid, .. }) = &x.pkt { Some(*pid) } else { None }).collect();
+    e.retain(|(t, p)| !(*t == 9 && unencodable.contains(p) && !a.iter().any(|x| x.0 == 9 && x.1 == *p)));
     for (i, (t, p, _)) in a.iter().enumerate() {
         if i >= e.len() || e[i] != (*t, *p) {
             return Err(viol(
